@@ -705,3 +705,28 @@ Proof.
   - repeat constructor; simpl; intuition discriminate.
   - eexists. split; [vm_compute; reflexivity|]. repeat split; reflexivity.
 Qed.
+
+(* two games (one ply and two plies) through encode_games with a toy encoding of varying length *)
+Definition ex_enc (p : position) : list Z := 9 :: repeat 1 (Z.to_nat (ply p)).
+Definition ex_p0 : position := from_config (mkCfg 3 None None).
+Definition ex_p1 : position :=
+  match move ex_p0 (mkMove 0 0 PlaceFlat None) with Some q => q | None => ex_p0 end.
+Definition ex_logs : list transcript :=
+  [ mkTr [ex_p0] [[mkMove 0 0 PlaceFlat None]] [[1]]%Q [1 # 2]%Q (Some White);
+    mkTr [ex_p0; ex_p1] [[mkMove 1 1 PlaceFlat None; mkMove 0 0 PlaceFlat None]; [mkMove 1 1 PlaceFlat None]]
+         [[1 # 4; 3 # 4]; [1]]%Q [0; -(1 # 4)]%Q None ].
+
+Example ex_encode :
+  Forall wf_transcript ex_logs /\
+  exists b, encode_games ex_enc ex_logs = Some b /\ length b = 3%nat /\ offset ex_logs 1 = 1%nat /\
+    map r_tokens b = [[9; 0]; [9; 0]; [9; 1]] /\ map r_mask b = [[true; false]; [true; false]; [true; true]] /\
+    map r_label b = [1; 0; 0]%Q /\ map (fun r => nthz (r_policy r) 60) b = [Some 0; Some (1 # 4); Some 1]%Q.
+Proof.
+  split; [repeat constructor|]. eexists. split; [vm_compute; reflexivity|]. repeat split; reflexivity.
+Qed.
+
+(* a duplicated candidate: the later probability is the one stored *)
+Example ex_last_wins : exists row,
+  logits_row 3 ([mkMove 0 0 PlaceFlat None] ++ mkMove 0 0 PlaceFlat None :: []) [1 # 4; 3 # 4]%Q = Some row /\
+  nthz row 0 = Some (3 # 4)%Q.
+Proof. eexists. split; [vm_compute; reflexivity|reflexivity]. Qed.
